@@ -730,6 +730,10 @@ impl<const LEVELS: usize> OrderBook<LEVELS> {
     /// If the price/vol are None then the original
     /// price/vol are kept.
     ///
+    /// As for order creation, prices must be a multiple
+    /// of the tick-size, a modification to a price that
+    /// is not is ignored.
+    ///
     /// # Arguments
     ///
     /// - `order_id` - Id of the order to modify
@@ -745,6 +749,10 @@ impl<const LEVELS: usize> OrderBook<LEVELS> {
         new_vol: Option<Price>,
     ) {
         let mut order_entry = self.orders[order_id];
+
+        if new_price.is_some_and(|p| p % self.tick_size != 0) {
+            return;
+        }
 
         if order_entry.order.status == Status::Active {
             match (new_price, new_vol) {
